@@ -241,6 +241,7 @@ LEVEL_TEXT = ("Exploration by runtime observation against a reference model: for
               "missing ends, identifier reuse, undeclared endpoints) g.nodes() and g.edges(data=True) of prov_to_graph are compared as multisets "
               "with a model computed from the strict snapshot of unified(): element nodes, exactly one inferred node of the inferred kind per "
               "undeclared endpoint, one edge first->second argument per relation with both ends; graph_to_prov(g) is compared with the unified "
-              "document restricted to elements and drawn relations.")
+              "document restricted to elements and drawn relations. One inferred node per undeclared name, whatever the roles it is "
+              "referenced in (self-loops on undeclared names are tallied).")
 LEVEL_NOTE = "Trusted: the model in this file (own endpoint-inference table) and the strict snapshot; bounded documents."
 DESIGN_REF = "DESIGN.md section 6, C14"
